@@ -505,9 +505,14 @@ func (c *FmtCodec) writeSegmentsATXHeading(segs []segment) {
 }
 
 func (c *FmtCodec) writeSegmentsParagraph(segs []segment) {
+	// Whether the next segment is written at the start of a line. This tracks
+	// what has actually been written: a segNewLine only starts a new line when
+	// it is written as an actual newline rather than as "&NewLine;".
+	nextStartOfLine := true
 	for i := 0; i < len(segs); i++ {
 		seg := segs[i]
-		startOfLine := i == 0 || (segs[i-1].typ == segNewLine && (i-1 == 0 || segs[i-2].typ != segNewLine))
+		startOfLine := nextStartOfLine
+		nextStartOfLine = false
 		endOfLine := i == len(segs)-1 || segs[i+1].typ == segNewLine
 		switch seg.typ {
 		case segText:
@@ -561,6 +566,7 @@ func (c *FmtCodec) writeSegmentsParagraph(segs []segment) {
 			} else {
 				c.finishLine()
 				c.startLine()
+				nextStartOfLine = true
 			}
 		case segHardLineBreak:
 			c.write("\\")
